@@ -31,8 +31,12 @@ Directed(k) ==
         pp  == IF n = 3 THEN pos ELSE (IF pos[1] < pos[2] THEN << 1, 2, 3 >> ELSE << 2, 1, 3 >>)
         typ(i) == Types[1 + RndS(Seed, k, 12, 10 + i, 4)]
         role(j) == CHOOSE r \in 1..3 : pp[r] = j
-        tx(j) == CASE role(j) = 1 -> [c |-> 1 + RndS(Seed, k, 12, 4, NPool), typ |-> typ(1), abs |-> -1, rel |-> << >>]
-                   [] role(j) = 2 -> [c |-> rc.c, typ |-> typ(2), abs |-> -1, rel |-> << [to |-> pp[1], off |-> rc.off] >>]
+        \* absolute indices (consistent with the checker's offset): 0 none, 1 the target only, 2 target and checker
+        am  == RndS(Seed, k, 12, 7, 3)
+        tabs == IF am = 0 THEN -1 ELSE IF rc.off > 0 THEN rc.off ELSE 0
+        cabs == IF am # 2 THEN -1 ELSE IF rc.off > 0 THEN 0 ELSE 0 - rc.off
+        tx(j) == CASE role(j) = 1 -> [c |-> 1 + RndS(Seed, k, 12, 4, NPool), typ |-> typ(1), abs |-> tabs, rel |-> << >>]
+                   [] role(j) = 2 -> [c |-> rc.c, typ |-> typ(2), abs |-> cabs, rel |-> << [to |-> pp[1], off |-> rc.off] >>]
                    [] role(j) = 3 -> [c |-> 1 + RndS(Seed, k, 12, 5, NPool), typ |-> typ(3), abs |-> -1,
                                       rel |-> << [to |-> pp[1], off |-> Offs[1 + RndS(Seed, k, 12, 6, 4)]] >>]
     IN [k |-> k, txs |-> [j \in 1..n |-> tx(j)]]
